@@ -89,6 +89,7 @@ func replayErrChain(args []string) (any, error) {
 			Ops []struct {
 				Op   string `json:"op"`
 				File string `json:"file"`
+				Msg  string `json:"msg"`
 				P    []int  `json:"p"`
 			} `json:"ops"`
 			Orig       specErr `json:"orig"`
@@ -116,7 +117,7 @@ func replayErrChain(args []string) (any, error) {
 			}
 			switch o.Op {
 			case "new":
-				orig = errchain.NewErr(o.File, lp, "boom")
+				orig = errchain.NewErr(o.File, lp, o.Msg)
 			case "appendOrig":
 				if r := orig.ChainAppend(o.File, lp); r != orig {
 					sum.miss(sig+":ret", "ChainAppend must return its receiver")
